@@ -428,9 +428,17 @@ func (c *nsClient) exec(op c02Op) *nsViolation {
 		}
 		res = s.nfs(nfsx.ProcCreate, nfsx.ArgsCreate(fh, op.Name, op.How, csa, verf))
 	case "mkdir":
-		res = s.nfs(nfsx.ProcMkdir, nfsx.ArgsMkdir(fh, op.Name, nfsx.Sattr{}))
+		var msa nfsx.Sattr
+		if op.SetMode {
+			msa.Mode = nfsx.U32p(op.Mode & 0777)
+		}
+		res = s.nfs(nfsx.ProcMkdir, nfsx.ArgsMkdir(fh, op.Name, msa))
 	case "symlink":
-		res = s.nfs(nfsx.ProcSymlink, nfsx.ArgsSymlink(fh, op.Name, nfsx.Sattr{}, op.Target))
+		var ssa nfsx.Sattr
+		if op.SetMode {
+			ssa.Mode = nfsx.U32p(op.Mode & 0777)
+		}
+		res = s.nfs(nfsx.ProcSymlink, nfsx.ArgsSymlink(fh, op.Name, ssa, op.Target))
 	case "remove":
 		res = s.nfs(nfsx.ProcRemove, nfsx.ArgsDirop(fh, op.Name))
 	case "rmdir":
